@@ -50,6 +50,7 @@ type blockOp struct {
 	Txs     []txSpec `json:"txs,omitempty"`
 	Restart bool     `json:"restart,omitempty"` // restart the restarting replica before this block
 	Export  string   `json:"export,omitempty"`  // C12: "asis" = export/import round trip after this block
+	Genesis string   `json:"genesis,omitempty"` // first op only: genesis variant the replicas are built from ("" = default)
 }
 
 const (
@@ -482,6 +483,16 @@ func (h *hist) nextTx(t *rapid.T) (txSpec, bool) {
 		switch a := rapid.IntRange(0, 5).Draw(t, "tokop"); {
 		case a == 0 || len(w.tokens) == 0:
 			scale := uint32(rapid.IntRange(0, 8).Draw(t, "scale"))
+			if len(w.tokens) > 0 && rapid.IntRange(0, 4).Draw(t, "crossns") == 0 {
+				// the two namespaces are separate: a min unit may equal another token's symbol (and vice versa)
+				x := pick(t, "other", w.tokens)
+				sym, mu := fmt.Sprintf("aa%dx", s), x.Symbol
+				if rapid.Bool().Draw(t, "swapns") {
+					sym, mu = x.MinUnit, fmt.Sprintf("zz%dx", s)
+				}
+				return txSpec{u, h.enc(&tokenv1.MsgIssueToken{Symbol: sym, Name: "Token", Scale: scale, MinUnit: mu,
+					InitialSupply: uint64(rapid.IntRange(0, 1000).Draw(t, "init")), MaxSupply: 100000000, Mintable: true, Owner: me})}, true
+			}
 			return txSpec{u, h.enc(&tokenv1.MsgIssueToken{Symbol: fmt.Sprintf("tk%dx", s), Name: "Token", Scale: scale, MinUnit: fmt.Sprintf("mu%dx", s),
 				InitialSupply: uint64(rapid.IntRange(0, 100000).Draw(t, "init")), MaxSupply: 100000000, Mintable: rapid.IntRange(0, 3).Draw(t, "mintable") != 0, Owner: me})}, true
 		case a == 1:
